@@ -1,5 +1,8 @@
 mod common;
 mod exp;
+mod h_c01;
+mod h_run;
+mod hist;
 mod p_adaptive;
 mod p_chunk;
 mod p_codec;
@@ -39,7 +42,9 @@ fn main() {
         .and_then(|i| args.get(i + 1).cloned());
     common::quiet_panics();
     let code = match args[1].as_str() {
+        "C01" => h_c01::run_c01(tier, replay),
         "C05" => s_wal::run(tier, replay),
+        "C06" => h_c01::run_c06(tier, replay),
         "C30" => p_codec::run_c30(tier, replay),
         "C31" => p_codec::run_c31(tier, replay),
         "C32" => p_query::run(tier, replay),
@@ -59,6 +64,7 @@ fn main() {
 fn worker(kind: &str) {
     match kind {
         "c32" => p_query::worker(),
+        "hist" => hist::worker(),
         other => common::die(&format!("unknown worker kind {other}")),
     }
 }
